@@ -273,10 +273,25 @@ def expected_obs(rcc, data, mode, present, ntemps, trace, old, ref):
     return [rcc, present, mode if present else 0, 1 if ntemps > 0 else 0, len(hooks)] + hooks + (comp if present else [])
 
 
-def run_fault(root, shmroot, case, cross, fault, strace_inject=None):
+def run_fault(root, shmroot, case, cross, fault, strace_inject=None, fsize=None):
     sb = Sandbox(root, shmroot, case, cross)
     try:
         args = argv(case, True, sb.target, sb.more)
+        if fsize is not None:
+            # a REAL write failure: RLIMIT_FSIZE makes the write(2) that crosses the limit on the temp file fail (EFBIG);
+            # the hook trace goes to stderr (a pipe, not subject to the limit)
+            import resource
+
+            def limit():
+                resource.setrlimit(resource.RLIMIT_FSIZE, (fsize, fsize))
+            env = sb.env(None)
+            env["YQ_VERIF_TRACE"] = "/dev/stderr"
+            p = subprocess.run([vlib.YQ] + args, env=env, cwd=sb.dir, stdout=subprocess.PIPE, stderr=subprocess.PIPE, timeout=60, preexec_fn=limit)
+            data, mode, present, ntemps = sb.observe()
+            lines = p.stderr.decode("utf-8", "replace").split("\n")
+            return dict(rc=rc_class(p.returncode), data=data, mode=mode, present=present, ntemps=ntemps,
+                        trace=[l for l in lines if l in CODE], stdout=p.stdout,
+                        stderr="\n".join(l for l in lines if l and l not in CODE)[-300:], fsize=fsize)
         if strace_inject:
             cmd = ["strace", "-f", "-o", "/dev/null", "-e", "trace=" + ",".join(sorted({s.split(":")[0] for s in strace_inject}))]
             for s in strace_inject:
@@ -302,6 +317,13 @@ def oracle(case, info, run, point, action, cross):
         return [(None, "target file vanished")]
     if run["mode"] != mode:
         bad.append((None, "permission bits changed %o -> %o" % (mode, run["mode"])))
+    if run.get("fsize") is not None and new is not None and len(new) > run["fsize"]:
+        # the output does not fit under the file size limit: some write of the temp file must have failed
+        if rc == 0:
+            bad.append((None, "a write of the temp file failed (file size limit %d < %d bytes of output) but yq -i exits 0; the file now has %d bytes"
+                        % (run["fsize"], len(new), len(data))))
+        elif not run["stderr"].strip():
+            bad.append((None, "failed write of the temp file: exit %d without a message on stderr" % rc))
     artifact = action == "fail" and point in ARTIFACT_FAIL_POINTS
     sig_xdev = cross or run.get("rename_forced")
     if rc == 0:
@@ -369,7 +391,7 @@ def replay(rp):
         case["more"] = [(n, vlib.b64d(b)) for n, b in case.get("more_b64", [])]
         info = baseline(root, shmroot, case)
         fault = rp.get("fault")
-        run = run_fault(root, shmroot, case, rp.get("cross", False), fault, rp.get("strace"))
+        run = run_fault(root, shmroot, case, rp.get("cross", False), fault, rp.get("strace"), rp.get("fsize"))
         if rp.get("strace") and any(s.startswith("renameat") for s in rp["strace"]):
             run["rename_forced"] = True
         if rp.get("strace") and any(s.startswith(("unlinkat", "fsync")) for s in rp["strace"]):
@@ -415,15 +437,34 @@ def run(chk):
         for ci, (case, info) in enumerate(zip(cases, infos)):
             for cross in ([False, True] if cross_ok else [False]):
                 for pt, act, k in fault_space(info["n"], thorough):
-                    jobs.append((ci, cross, pt, act, k, None, ()))
+                    jobs.append((ci, cross, pt, act, k, None, (), None))
             if strace_ok and (thorough or ci < 4 or case["name"] in ("front-matter", "big-file", "eval-error")):
                 for label, inj, mf in SYSCALL_FAULTS:
-                    jobs.append((ci, False, None, None, 1, inj, tuple(mf)))
+                    jobs.append((ci, False, None, None, 1, inj, tuple(mf), None))
+            # real write failures of the temp file (file size limit): on the last and on a non-last result, below and above
+            # the 4096-byte buffer of the printer's bufio.Writer
+            if info["ref_rc"] == 0 and not case.get("fm", 0) and info["chunks"] and info["cls"] == "eval":
+                total = sum(len(c) for c in info["chunks"])
+                limits = {0, total - 1, total, total // 2, 4096, 8192, max(0, total - 4097)}
+                cum = 0
+                for c in info["chunks"][:-1]:
+                    cum += len(c)
+                    limits.add(cum)          # exactly the results before fit: the next one fails
+                    limits.add(cum + 1)
+                for L in sorted(x for x in limits if 0 <= x <= total):
+                    cum, k = 0, 0
+                    for i, c in enumerate(info["chunks"]):
+                        cum += len(c)
+                        if cum > L:
+                            k = i + 1
+                            break
+                    mf = ("(OFlush %d%%nat, Fail 0%%nat)" % k,) if k else ()
+                    jobs.append((ci, False, None, None, 1, None, mf, L))
 
         def do(job):
-            ci, cross, pt, act, k, inj, mf = job
+            ci, cross, pt, act, k, inj, mf, fsize = job
             fault = None if pt is None else "%s:%s:%d" % (pt, act, k)
-            r = run_fault(root, shmroot, cases[ci], cross, fault, inj)
+            r = run_fault(root, shmroot, cases[ci], cross, fault, inj, fsize)
             if inj and any(s.startswith("renameat") for s in inj):
                 r["rename_forced"] = True
             if inj and any(s.startswith(("unlinkat", "fsync")) for s in inj):
@@ -442,22 +483,34 @@ def run(chk):
             defs.append("Definition ref_%d : bytes := %s." % (ci, vlib.coq_str(info["ref_out"])))
         coq_cases = []
         for job, r in zip(jobs, runs):
-            ci, cross, pt, act, k, inj, mf = job
+            ci, cross, pt, act, k, inj, mf, fsize = job
             term = "((%s, %d), %s, plan_%d, (old_%d, %d), ref_%d)" % ("true" if cross else "false", cases[ci].get("fm", 0),
                                                                       coq_faults(pt, act, k, infos[ci], mf), ci, ci, cases[ci]["mode"], ci)
             coq_cases.append((term, expected_obs(r["rc"], r["data"], r["mode"], r["present"], r["ntemps"], r["trace"],
                                                  cases[ci]["content"], infos[ci]["ref_out"])))
         t0 = time.time()
-        mism, err = vlib.coq_mismatches(chk.workdir, "c12_cases", "\n".join(defs), "c12_case", coq_cases, shard=max(60, len(coq_cases) // vlib.NCPU + 1))
+        # runs under a file size limit are compared without the hook trace
+        idx_nt = [i for i, j in enumerate(jobs) if j[7] is not None]
+        idx_tr = [i for i, j in enumerate(jobs) if j[7] is None]
+        for i in idx_nt:
+            e = coq_cases[i][1]
+            coq_cases[i] = (coq_cases[i][0], e[:4] + e[5 + e[4]:])
+        mism = []
+        for name, fn, idx in (("c12_cases", "c12_case", idx_tr), ("c12_fsize", "c12_case_nt", idx_nt)):
+            if not idx:
+                continue
+            sub = [coq_cases[i] for i in idx]
+            m, err = vlib.coq_mismatches(chk.workdir, name, "\n".join(defs), fn, sub, shard=max(60, len(sub) // vlib.NCPU + 1))
+            if err:
+                broken.append("model evaluation failed: " + err[-600:])
+            else:
+                mism += [(idx[i], mo) for i, mo in m]
         vlib.log("C12: model evaluated on %d schedules in %.1fs" % (len(coq_cases), time.time() - t0))
-        if err:
-            broken.append("model evaluation failed: " + err[-600:])
-            mism = []
         for i, mo in mism:
             ci = jobs[i][0]
             exp = coq_cases[i][1]
             mo = list(mo)
-            if cases[ci].get("fm", 0) and len(mo) > 3 and len(exp) > 3:
+            if cases[ci].get("fm", 0) and jobs[i][7] is None and len(mo) > 3 and len(exp) > 3:
                 # the front-matter yaml temp file is not modelled: ignore the temp-left flag
                 mo[3] = exp[3]
                 if mo == exp:
@@ -467,31 +520,32 @@ def run(chk):
         # ---- direct oracle + bookkeeping
         nviol = 0
         for job, r in zip(jobs, runs):
-            ci, cross, pt, act, k, inj, mf = job
+            ci, cross, pt, act, k, inj, mf, fsize = job
             case, info = cases[ci], infos[ci]
             dist["runs"] += 1
             dist["cross"] += 1 if cross else 0
             dist["syscall_level"] += 1 if inj else 0
+            dist["file_size_limit"] = dist.get("file_size_limit", 0) + (1 if fsize is not None else 0)
             if r["rc"] == 9:
                 dist["killed"] += 1
             elif r["rc"] in (0, 1, 2):
                 dist["exit%d" % r["rc"]] += 1
             reached = pt is None or (pt in r["trace"])
-            chk.count((case["name"], cross, pt, act, k, tuple(inj or ())), nontrivial=reached and (pt is not None or inj is not None),
+            chk.count((case["name"], cross, pt, act, k, tuple(inj or ()), fsize), nontrivial=reached and (pt is not None or inj is not None or bool(mf)),
                       sample={"case": case["name"], "cross": cross, "fault": "%s:%s:%s" % (pt, act, k), "rc": r["rc"],
                               "file_bytes": len(r["data"]), "trace_len": len(r["trace"])} if (pt == "copy_after_truncate" or (pt == "print_node" and cross)) else None)
             if r["rc"] == 99:
                 chk.violation({"case": case_json(case), "cross": cross, "fault": "%s:%s:%d" % (pt, act, k)}, True, "yq -i hangs")
                 continue
             for key, text in oracle(case, info, r, pt, act, cross):
-                detail = "%s cross=%s fault=%s:%s:%s %s" % (case["name"], cross, pt, act, k, text)
+                detail = "%s cross=%s fault=%s:%s:%s%s %s" % (case["name"], cross, pt, act, k, "" if fsize is None else " RLIMIT_FSIZE=%d" % fsize, text)
                 if key and chk.is_known(key):
                     chk.known_finding(key, detail)
                     continue
                 nviol += 1
                 if nviol <= 5:
                     chk.violation({"case": case_json(case), "cross": cross, "fault": None if pt is None else "%s:%s:%d" % (pt, act, k),
-                                   "strace": inj, "rc": r["rc"], "file_after_b64": vlib.b64e(r["data"]), "mode_after": r["mode"],
+                                   "strace": inj, "fsize": fsize, "rc": r["rc"], "file_after_b64": vlib.b64e(r["data"]), "mode_after": r["mode"],
                                    "trace": r["trace"], "signature": key}, True, detail)
         chk.extra["disagreements"] = len(disagreements)
     finally:
@@ -501,9 +555,9 @@ def run(chk):
 
     if disagreements and not chk.violations:
         i, mo = disagreements[0]
-        ci, cross, pt, act, k, inj, mf = jobs[i]
+        ci, cross, pt, act, k, inj, mf, fsize = jobs[i]
         chk.violation({"kind": "correspondence", "broken": "Model/InPlace.v vs the -i protocol of the binary",
-                       "case": case_json(cases[ci]), "cross": cross, "fault": None if pt is None else "%s:%s:%d" % (pt, act, k), "strace": inj,
+                       "case": case_json(cases[ci]), "cross": cross, "fault": None if pt is None else "%s:%s:%d" % (pt, act, k), "strace": inj, "fsize": fsize,
                        "impl_obs": coq_cases[i][1][:40], "model_obs": mo[:40], "count": len(disagreements),
                        "legend": "[exit class(9=killed), target present, mode, temp left, #hooks, hook codes..., 0=old bytes | 1=stdout of the command without -i | 2,bytes...]"},
                       False, "model and implementation disagree on %d schedules, but the direct oracle found no failing input" % len(disagreements))
@@ -518,7 +572,9 @@ def run(chk):
              "{temp dir on the same device, on another device (/dev/shm)} plus the fault-free run, for %d (expression, content, mode, flags) "
              "cases (succeeding, failing expression, invalid YAML at document 1 / 2, syntax error, -e, encoder error, multi-document, "
              "eval-all with two files, JSON, front matter process/extract, init error, panic, empty result, file larger than the write buffer) "
-             "and seeded random ones; plus strace syscall error injection (rename, chown, chmod, fsync, unlink) for the O-steps. "
+             "and seeded random ones; plus strace syscall error injection (rename, chown, chmod, fsync, unlink) for the O-steps; plus REAL write failures of the "
+             "temp file (RLIMIT_FSIZE at 0, mid, last byte, result boundaries, 4096, 8192: failing on the last and on a non-last result, below and above the bufio size) "
+             "with the oracle failed write => non-zero exit, message on stderr, target unchanged. "
              "Observables: exit status, target bytes, target mode, hook trace, temp file left. "
              "A run is non-trivial when the injected point was reached." % len(cases),
         trusted=vlib.COMMON_TRUSTED + [
